@@ -268,10 +268,16 @@ theorem readyWrite_retry (c : CS) : SameRetry c (readyWrite c).1 := by
   apply SameRetry.mk'
   unfold readyWrite; grind
 
-theorem readyRead_retry (c : CS) : SameRetry c (readyRead c).1 := by
+theorem readyRead_retry0 (c : CS) : SameRetry c (readyRead c).1 := by
   apply SameRetry.mk'
   have := telnetFilter_fields
   unfold readyRead; grind
+
+theorem clipRead_retry (c : CS) : SameRetry c (clipRead c) :=
+  SameRetry.mk' ⟨by simp, by simp, by simp, by simp, by simp⟩
+
+theorem readyRead_retry (c : CS) : SameRetry c (readyRead (clipRead c)).1 :=
+  (clipRead_retry c).trans (readyRead_retry0 _)
 
 theorem readyTail_retry (f : Nat) (r : CS × Bool × Bool) : SameRetry r.1 (readyTail f r).1 := by
   unfold readyTail
@@ -941,20 +947,58 @@ theorem reconnectDev_connected (c : CS) (tmo : Option Time) (h : c.dev.conn ≠ 
     rw [hb, hr.now]
     exact Or.inr ⟨h2, h3, rfl⟩
 
-/-- `_handle_ready_device` on a CONNECTED device holding a descriptor, spelled out: when it reports an i/o error -/
+/-- the read half (capacity half included) reports an i/o error exactly on a failing `read` and at end of file -/
+theorem readyReadC_ioerr (c : CS) :
+    (readyRead (clipRead c)).2 = true ↔ (c.env.read = some none ∨ c.env.read = some (some [])) := by
+  unfold readyRead
+  cases hr : c.env.read with
+  | none => rw [clipRead_read_none c hr, hr]; simp
+  | some x =>
+    cases x with
+    | none => rw [clipRead_read_err c hr]; simp
+    | some bs =>
+      rw [clipRead_read_data c bs hr]
+      cases bs with
+      | nil => simp [readOf_nil]
+      | cons b r =>
+        have := readOf_ne_nil c.dev (b :: r) (by simp)
+        cases hh : readOf c.dev (b :: r) with
+        | nil => exact absurd hh this
+        | cons _ _ => simp
+
+/-- what the read half leaves alone -/
+theorem readyReadC_frame (c : CS) :
+    (readyRead (clipRead c)).1.dev.acts = c.dev.acts ∧ (readyRead (clipRead c)).1.dev.conn = c.dev.conn ∧
+    (readyRead (clipRead c)).1.dev.fd = c.dev.fd ∧ (readyRead (clipRead c)).1.dev.cpid = c.dev.cpid ∧
+    (readyRead (clipRead c)).1.dev.isPipe = c.dev.isPipe ∧ (readyRead (clipRead c)).1.dev.loggedIn = c.dev.loggedIn ∧
+    ((readyRead (clipRead c)).2 = true → (readyRead (clipRead c)).1.aborted = c.aborted) := by
+  have core : ∀ c : CS, (readyRead c).1.dev.acts = c.dev.acts ∧ (readyRead c).1.dev.conn = c.dev.conn ∧
+      (readyRead c).1.dev.fd = c.dev.fd ∧ (readyRead c).1.dev.cpid = c.dev.cpid ∧
+      (readyRead c).1.dev.isPipe = c.dev.isPipe ∧ (readyRead c).1.dev.loggedIn = c.dev.loggedIn ∧
+      ((readyRead c).2 = true → (readyRead c).1.aborted = c.aborted) := by
+    intro c
+    unfold readyRead telnetFilter
+    repeat' split
+    all_goals simp_all
+  obtain ⟨a1, a2, a3, a4, a5, a6, a7⟩ := core (clipRead c)
+  exact ⟨by rw [a1]; simp, by rw [a2]; simp, by rw [a3]; simp, by rw [a4]; simp, by rw [a5]; simp, by rw [a6]; simp,
+    fun h => by rw [a7 h]; simp⟩
+
+/-- `_handle_ready_device` on a CONNECTED device holding a descriptor, spelled out: when it reports an i/o error
+    (`wcap = 0`: the `write` answers `EAGAIN`) -/
 theorem handleReady_connected_ioerr (c : CS) (h2 : c.dev.conn = 2) (hfd : c.dev.fd.isSome = true) :
     (handleReady c).2 = true ↔
       (c.env.revents &&& 4 != 0 || c.env.revents &&& 8 != 0 || c.env.revents &&& 16 != 0) = true ∨
-      ((c.env.revents &&& 2 != 0) = true ∧ (c.dev.toBuf.isEmpty = true ∨ c.env.writeOk = false)) ∨
+      ((c.env.revents &&& 2 != 0) = true ∧ (c.dev.toBuf.isEmpty = true ∨ c.env.writeOk = false ∨ c.env.wcap = 0)) ∨
       ((c.env.revents &&& 1 != 0) = true ∧ (c.env.read = some none ∨ c.env.read = some (some []))) := by
   have hn : c.dev.fd.isNone = false := by cases h : c.dev.fd <;> simp_all
   rw [Login2.handleReady_eq]
-  unfold Login2.handleReady' readyTail readyWrite readyRead
+  unfold Login2.handleReady' readyTail readyWrite
   simp only [h2, hn]
+  have hR := readyReadC_ioerr
   cases hH : (c.env.revents &&& 4 != 0 || c.env.revents &&& 8 != 0 || c.env.revents &&& 16 != 0)
   · cases hO : (c.env.revents &&& 2 != 0) <;> cases hI : (c.env.revents &&& 1 != 0) <;>
-      cases hE : c.dev.toBuf.isEmpty <;> cases hW : c.env.writeOk <;>
-      (try rcases hR : c.env.read with _ | _ | _ | _) <;> simp_all
+      cases hE : c.dev.toBuf.isEmpty <;> cases hW : c.env.writeOk <;> cases hC : (c.env.wcap == 0) <;> simp_all
   · simp
 
 /-- … and what it leaves of the device then: the queue, the connection state, the descriptor, the child, the login flag
@@ -966,12 +1010,12 @@ theorem handleReady_connected_frame (c : CS) (h2 : c.dev.conn = 2) (hfd : c.dev.
     (handleReady c).1.dev.loggedIn = c.dev.loggedIn ∧ (handleReady c).1.aborted = c.aborted := by
   have hn : c.dev.fd.isNone = false := by cases h : c.dev.fd <;> simp_all
   rw [Login2.handleReady_eq] at he ⊢
-  unfold Login2.handleReady' readyTail readyWrite readyRead at he ⊢
+  unfold Login2.handleReady' readyTail readyWrite at he ⊢
   simp only [h2, hn] at he ⊢
+  have hR := readyReadC_frame
   cases hH : (c.env.revents &&& 4 != 0 || c.env.revents &&& 8 != 0 || c.env.revents &&& 16 != 0)
   · cases hO : (c.env.revents &&& 2 != 0) <;> cases hI : (c.env.revents &&& 1 != 0) <;>
-      cases hE : c.dev.toBuf.isEmpty <;> cases hW : c.env.writeOk <;>
-      (try rcases hR : c.env.read with _ | _ | _ | _) <;> simp_all
+      cases hE : c.dev.toBuf.isEmpty <;> cases hW : c.env.writeOk <;> cases hC : (c.env.wcap == 0) <;> simp_all
   · simp_all
 
 /-! ### restart after a connect -/
@@ -1521,11 +1565,11 @@ theorem clientPass_ledger (w : W) (c : Cli) (e : Option FdEnv) :
   dsimp only
   split
   · exact ⟨rfl, [Pm.Daemon.Sys.close c.fd], rfl, rfl, rfl, fun c' h => by simp [cpDead] at h⟩
-  · have h1 : CliQuiet w c (if (cpRev c e &&& 1 != 0 || cpRev c e &&& 4 != 0) = true then cpRead w c e else (w, c)) := by
+  · have h1 : CliQuiet w c (if (cpRev c e &&& 1 != 0 || cpRev c e &&& 4 != 0) = true then cpRead w (clipC c e) (clipE c e) else (w, c)) := by
       split
-      · exact cpRead_quiet w c e
+      · exact (cpRead_quiet w (clipC c e) (clipE c e)).of_same (by simp) (by simp)
       · exact CliQuiet.refl w c
-    generalize (if (cpRev c e &&& 1 != 0 || cpRev c e &&& 4 != 0) = true then cpRead w c e else (w, c)) = r1 at *
+    generalize (if (cpRev c e &&& 1 != 0 || cpRev c e &&& 4 != 0) = true then cpRead w (clipC c e) (clipE c e) else (w, c)) = r1 at *
     have h2 : CliQuiet w c (if (cpRev c e &&& 2 != 0) = true then handleWrite r1.1 r1.2 else r1) := by
       split
       · exact h1.trans (handleWrite_quiet _ _)
